@@ -66,6 +66,8 @@ def spaces(tier):
             out.append(cs.db_space(n, cs.COMBOS[n % 4], 0, binary=True))
         for n in (2, 3, 4):
             out.append(cs.db_space(n, cs.COMBOS[n % 4], 2, cli=True))
+    for combo in cs.COMBOS[2:4]:
+        out.append(cs.db_space(4, combo, 0, base_level=-171.6))
     for combo in cs.EXTREME:
         out.append(cs.db_space(3, combo, 1))
         if tier == 'thorough':
